@@ -217,6 +217,7 @@ pub fn gen_workload(cx: &mut Cx, max_budget: i64) -> Workload {
     // damaged documents are most interesting with A2ML and IF_DATA present
     opts.allow_a2ml = cx.tape.chance(3, 4);
     opts.allow_ifdata = cx.tape.chance(3, 4);
+    opts.ifdata_a2ml_block = cx.tape.chance(1, 2);
     let lo = LayoutOpts::swarm(&mut cx.tape);
     let mut g = DocGen::new(&mut cx.tape, opts);
     let nodes = if fragment { g.fragment() } else { g.document() };
